@@ -26,7 +26,7 @@
    NOT proved (part (b)): the induction that strings these moves together for every depth, with
    application handlers that issue the next call as part of the model (handlers are opaque here:
    "the handler resumes" is a step the schedule chooses); decided by the nesting workloads. *)
-From Verif Require Import Base Link LinkProofs LinkInvB LinkInvK Pair PairProofs PairProgress.
+From Verif Require Import Base Link LinkProofs LinkInvB LinkInvK LinkInvQ LinkFrame Pair PairProofs PairProgress.
 
 Theorem request_loop_never_waits_for_handlers :
   forall calls s f arg,
@@ -169,3 +169,30 @@ Theorem stalled_handler_resumes_and_answers :
       tget (threads (pa p')) (TCall i) = Some (CReturned v er).
 Proof. exact unwind_completes_lemma. Qed.
 Print Assumptions stalled_handler_resumes_and_answers.
+
+(* what carries the outer calls of a chain across everything the inner ones do (LinkFrame.v): a caller
+   that waits for its response - its waiter goroutine not yet run - stays exactly there through ANY
+   schedule that does not run that waiter and does not cancel the link context; a handler that is
+   inside application code stays there through ANY schedule that does not run it.  Whatever else the
+   schedule contains: other calls in both directions to any depth, closures, per-call cancellations,
+   faults. *)
+Theorem waiting_caller_undisturbed :
+  forall calls i ent cs s s',
+    KeepC i ent s -> Forall (spares_caller i) cs -> lrun fixed calls s cs = Some s' -> KeepC i ent s'.
+Proof. exact waiting_caller_undisturbed_lemma. Qed.
+Print Assumptions waiting_caller_undisturbed.
+
+Theorem stalled_handler_undisturbed :
+  forall calls n arg cs Q s s',
+    InvQ Q s -> KeepH n arg s -> n < nreq s -> Forall (fun c => fst c <> Run (THandler n)) cs ->
+    lrun fixed calls s cs = Some s' -> KeepH n arg s' /\ n < nreq s'.
+Proof. exact gated_handler_undisturbed_lemma. Qed.
+Print Assumptions stalled_handler_undisturbed.
+
+Theorem undisturbed_example :
+  exists s s', lrun fixed fr_calls linit fr_prefix = Some s /\ lrun fixed fr_calls s fr_rest = Some s' /\
+    KeepC 0 0 s /\ KeepH 0 5%N s /\ Forall (spares_caller 0) fr_rest /\
+    Forall (fun c => fst c <> Run (THandler 0)) fr_rest /\
+    In (EvReturn 1 71%N None) (evs s') /\ KeepC 0 0 s' /\ KeepH 0 5%N s'.
+Proof. exact frame_example. Qed.
+Print Assumptions undisturbed_example.
